@@ -742,11 +742,14 @@ func (b *bitstream) readDecimal(length uint64) (*Decimal, error) {
 	}
 
 	if length > 0 {
-		if err := b.readBigInt(length, coef); err != nil {
+		neg, err := b.readBigInt(length, coef)
+		if err != nil {
 			return nil, err
 		}
 
-		negZero = coef.Sign() == 0
+		// Only a zero magnitude with the sign bit set is negative zero; an explicit
+		// zero coefficient with a clear sign bit is plain zero.
+		negZero = neg && coef.Sign() == 0
 	}
 
 	return NewDecimal(coef, int32(exp), negZero), nil
@@ -830,11 +833,11 @@ func (b *bitstream) clear() {
 }
 
 // ReadBigInt reads a fixed-length integer of the given length and stores
-// the value in the given big.Int.
-func (b *bitstream) readBigInt(length uint64, ret *big.Int) error {
+// the value in the given big.Int. It also reports whether the sign bit was set.
+func (b *bitstream) readBigInt(length uint64, ret *big.Int) (bool, error) {
 	bs, err := b.readN(length)
 	if err != nil {
-		return err
+		return false, err
 	}
 
 	neg := bs[0]&0x80 != 0
@@ -848,7 +851,7 @@ func (b *bitstream) readBigInt(length uint64, ret *big.Int) error {
 		ret.Neg(ret)
 	}
 
-	return nil
+	return neg, nil
 }
 
 // ReadVarUint reads a variable-length-encoded uint.
